@@ -887,3 +887,20 @@ package core
 //@   loop 2 invariant len(result) == len(upstream) && 0 <= i && i < len(result)
 //@   loop 2 invariant forall k :: 0 <= k && k < i ==> result[k] != nil
 //@   loop 2 invariant found ==> result[i] != nil
+
+// ---------------------------------------------------------------- C05 / C06 a partial reset touches exactly the failed jobs
+// Ghost event: resets[m] counts Metadata.uncheckedReset calls on m (the reset of a job's
+// directory).  checkedReset resets the job if and only if its recorded state is failed
+// (an _errors or an _assert file): finished or running work is never thrown away, and an
+// assertion failure is as resettable as an error.
+//@ func core.Metadata.uncheckedReset property C05 C06
+//@   trusted
+//@   modifies mapof(self.contents), mapof(self.readCache), held(self.mutex), ghost(resets)
+//@   ensures ghost(resets)[self] == old(ghost(resets)[self]) + 1
+//@   ensures forall m *core.Metadata :: m != self ==> ghost(resets)[m] == old(ghost(resets)[m])
+
+//@ func core.Metadata.checkedReset property C05 C06
+//@   uses mdstate
+//@   requires !held(self.mutex)
+//@   ensures @failedreset mdState(old(dom(self.contents))) == "failed" ==> ghost(resets)[self] == old(ghost(resets)[self]) + 1
+//@   ensures @onlyfailed mdState(old(dom(self.contents))) != "failed" ==> ghost(resets) == old(ghost(resets))
